@@ -160,6 +160,11 @@ public:
   static inline void (*event_hook)(const char* what, Self* self) = nullptr;
   // test knob: make the next create fail
   static inline bool fail_next_create = false;
+#ifdef VM_GRANT_DENY
+  // 0: refuse (success = false, pointer handed back unchanged); 1: accept
+  static inline int grant_mode = 0;
+  static inline int deny_mode = 0;
+#endif
   // harness knob: called at the start of every same-sandbox (range) check, i.e. at a moment
   // between two of RLBox's reads of sandbox memory that no RLBOX_VERIF_YIELD point marks
   static inline void (*same_sandbox_hook)(const void* p1, const void* p2) = nullptr;
@@ -437,9 +442,6 @@ protected:
   inline size_t impl_get_total_memory() { return reported_total; }
 
 #ifdef VM_GRANT_DENY
-  // 0: refuse (success = false, pointer handed back unchanged); 1: accept
-  static inline int grant_mode = 0;
-  static inline int deny_mode = 0;
   template<typename T>
   inline T* impl_grant_access(T* src, size_t, bool& success)
   {
